@@ -112,6 +112,11 @@ def run(an: Analysis, rep):
     rep.run(c04.r044, an, sha)
     rep.run(c06.reset_rules, an, SharedRules(rep, "R05.Z", "normalize strips every positional artefact together (shared with C06's R06.1/R06.2): an override kept on one kind of table entry while the list of "
                                                            "unreferenced entries is dropped leaves a gap in that table, and normalize(x).to_code() raises instead of giving an equivalent code object"))
+    she = SharedRules(rep, "R05.E", "the encoder's layout and table folded over witness block lists without overrides - the data normalize returns (shared with C03's R03.E / R03.T / R03.Y): "
+                                    "the code written for it reads back as the same instructions, operands and jump structure")
+    rep.run(c03.r03e, an, she)
+    rep.run(c03.r03t, an, she)
+    rep.run(c03.r03y, an, she)
     rep.run(c03.r037, an, SharedRules(rep, "R05.R", "re-layout after normalization (shared with C03's R03.7): with the width overrides stripped, jumps still land on their targets"))
 
 
